@@ -87,6 +87,24 @@ def sankey_case(rec, hub, rng, tier, i):
               sample={"flows": names[:5], "exclude_processes": excl_p, "exclude_flows": excl_f, "slice_dict": {k_: str(v) for k_, v in slice_dict.items()}, "split": split})
     try:
         kw_disp = {"display_names": dict(disp)} if disp else {}
+        if slice_dict and not fail_first and rng.random() < 0.2:
+            # the slice keyed by dimension NAMES: refused, or honoured - never taken and then ignored
+            by_name = {dnames[l_]: v_ for l_, v_ in slice_dict.items()}
+            rec.event(MS, sig=sig + "|slice-by-name", cls="sankey|slice keyed by dimension names")
+            try:
+                fig_n = sk.PlotlySankeyPlotter(mfa=mfa, slice_dict=by_name, exclude_processes=list(excl_p), exclude_flows=list(excl_f), flow_color_dict={"default": "hsl(230,20,70)"}).plot()
+            except Exception:
+                fig_n = None
+            if fig_n is not None:
+                tot_n = sorted(float(v_) for v_ in fig_n.data[0].link.value)
+                exp_n = []
+                for f_, n_ in zip(d.flows, names):
+                    if n_ in excl_f or f_["src"] in excl_p or f_["dst"] in excl_p:
+                        continue
+                    L_ = LArr.from_snap(Snap(mfa.flows[n_]))
+                    exp_n.append(as_float(L_.select({l_: ("single", slice_dict[l_]) for l_ in f_["letters"] if l_ in slice_dict}).total()))
+                if tot_n != sorted(exp_n):
+                    rec.violation(MS, "sankey:slice-keyed-by-dimension-names-accepted-but-not-applied", {"slice_dict": {k_: str(v_) for k_, v_ in by_name.items()}, "got": tot_n[:5], "expected": sorted(exp_n)[:5]})
         if fail_first:
             bad_l = sorted(slice_dict)[int(rng.integers(0, len(slice_dict)))]
             plotter = sk.PlotlySankeyPlotter(mfa=mfa, slice_dict=dict(slice_dict, **{bad_l: "no such item"}), exclude_processes=list(excl_p), exclude_flows=list(excl_f), flow_color_dict=dict(colors), **kw_disp)
